@@ -508,7 +508,8 @@ FirstNonEmpty(c) == LET hits == {k \in 1..NQ : LenB(CycFrom(c)[k]) > 0} IN
                     IF hits = {} THEN 0 ELSE CycFrom(c)[CHOOSE x \in hits : \A y \in hits : x <= y]
 C15_Choice == E.ev = "deq" /\ E.job \in Jobs /\ Gated /\ Certain /\ NQ > 1 =>
      LET qb == QOf(E.job) IN
-       CASE hdr.strategy = "rr" -> qb = FirstNonEmpty(rrPrev)
+       \* (the cursor is reconstructed from the dequeues for a fixed set of queues: not when queues are bound during the episode)
+       CASE hdr.strategy = "rr" -> hdr.nobind \/ qb = FirstNonEmpty(rrPrev)
          [] hdr.strategy = "max" -> \A q \in Queues : LenB(q) <= LenB(qb)
          [] hdr.strategy = "min" -> \A q \in Queues : LenB(q) > 0 => LenB(qb) <= LenB(q)
          [] OTHER -> TRUE
